@@ -390,6 +390,9 @@ type Update struct {
 	// DelMatch (kind delete-sel-multi): a delete selector naming only part of the identifier or a
 	// non-identifier field, so that it may match several items; all of them are to be removed
 	DelMatch []FieldMatch
+	// PartialFirst: on the wire the partial filter precedes the delete filter (SPINE fixes no order of the
+	// filters of one command; the meaning — delete first, then partial — must not depend on it)
+	PartialFirst bool
 }
 
 // FieldMatch: the item field with index Field must equal Val (a non-nil pointer of the field's type).
@@ -666,6 +669,9 @@ func (li *ListInfo) Cmd(u Update) model.CmdType {
 		}
 		if fp != nil {
 			c.Filter = append(c.Filter, *fp)
+		}
+		if u.PartialFirst && len(c.Filter) == 2 {
+			c.Filter[0], c.Filter[1] = c.Filter[1], c.Filter[0]
 		}
 	}
 	return c
